@@ -219,3 +219,154 @@ func c05StressRound(e *Env, round int) error {
 	go sc.Close()
 	return nil
 }
+
+// c05Backlog: responses that match no pending request arrive faster than the application reads the
+// response stream, whose buffer is small. "Surfaced on the response stream instead of ... lost": every
+// one of them must come out of the stream, in arrival order, once the application reads — the
+// receiver may make the peer wait, it may not drop. Variants: unknown ids, duplicates of an answered
+// request, late answers to requests that timed out.
+func c05Backlog(e *Env, buf int, variant string, route string) error {
+	e.Rep.Eval()
+	e.Rep.Count("backlog " + variant + " route=" + route)
+	info := map[string]interface{}{"family": "backlog", "buffer": buf, "variant": variant, "route": route}
+	var ct, st lime.Transport
+	if route == "pipe" {
+		ct, st = pair.Pipe(nil)
+	} else {
+		var err error
+		ct, st, err = pair.InProc(64)
+		if err != nil {
+			return err
+		}
+	}
+	cc, sc, err := pair.Established(ct, st, buf, "backlog-"+variant, lime.Node{Identity: lime.Identity{Name: "u", Domain: "d"}, Instance: "i"})
+	if err != nil {
+		return fmt.Errorf("harness: %v", err)
+	}
+	defer func() {
+		// the property is judged; the transports are dropped without ceremony
+		go func() { _ = ct.Close() }()
+		go func() { _ = st.Close() }()
+	}()
+	n := buf + 4
+	want := []string{}
+	mk := func(id string) *lime.ResponseCommand {
+		r := &lime.ResponseCommand{Status: lime.CommandStatusSuccess}
+		r.ID = id
+		r.Method = lime.CommandMethodGet
+		return r
+	}
+	sctx, scancel := context.WithTimeout(context.Background(), 20*time.Second)
+	defer scancel()
+	switch variant {
+	case "dup":
+		// every request is answered twice, back to back: the receiver matches the first copy and removes the
+		// registration in one step, so the second copy matches nothing and belongs on the stream — whatever
+		// the caller is doing at that moment
+		go func() {
+			for req := range sc.ReqCmdChan() {
+				for k := 0; k < 2; k++ {
+					_ = sc.SendResponseCommand(sctx, mk(req.ID))
+				}
+			}
+		}()
+		go func() {
+			for i := 0; i < n; i++ {
+				req := &lime.RequestCommand{}
+				req.ID = fmt.Sprintf("dup-%d", i)
+				req.Method = lime.CommandMethodGet
+				req.SetURIString("/x")
+				ctx, cancel := context.WithTimeout(context.Background(), 3*time.Second)
+				r, err := cc.ProcessCommand(ctx, req)
+				cancel()
+				if err != nil || r.ID != req.ID {
+					e.Rep.Violate("impl", "c05-lost", fmt.Sprintf("backlog (dup): call %s answered twice returned %v, %v", req.ID, r, err), info)
+					return
+				}
+			}
+		}()
+		for i := 0; i < n; i++ {
+			want = append(want, fmt.Sprintf("dup-%d", i))
+		}
+		got := []string{}
+		deadline := time.After(10 * time.Second)
+	dup:
+		for len(got) < len(want) {
+			select {
+			case r, ok := <-cc.RespCmdChan():
+				if !ok {
+					break dup
+				}
+				got = append(got, r.ID)
+			case <-deadline:
+				break dup
+			}
+		}
+		info["sent"], info["surfaced"] = want, got
+		if strings.Join(got, ",") != strings.Join(want, ",") {
+			e.Rep.Violate("impl", "c05-unmatched-lost", fmt.Sprintf("backlog (dup): %d requests were each answered twice; of the %d second copies the stream surfaced %d: %v", n, n, len(got), got), info)
+		} else {
+			e.Rep.Nontrivial(fmt.Sprintf("backlog dup %d %s", buf, route))
+		}
+		return nil
+	case "late":
+		// n requests time out unanswered; their answers arrive afterwards, back to back
+		go func() {
+			for range sc.ReqCmdChan() {
+			}
+		}()
+		for i := 0; i < n; i++ {
+			req := &lime.RequestCommand{}
+			req.ID = fmt.Sprintf("late-%d", i)
+			req.Method = lime.CommandMethodGet
+			req.SetURIString("/x")
+			ctx, cancel := context.WithTimeout(context.Background(), 50*time.Millisecond)
+			_, err := cc.ProcessCommand(ctx, req)
+			cancel()
+			if err == nil {
+				return fmt.Errorf("harness: an unanswered request completed")
+			}
+			want = append(want, req.ID)
+		}
+	default:
+		for i := 0; i < n; i++ {
+			want = append(want, fmt.Sprintf("unknown-%d", i))
+		}
+	}
+	sendErr := make(chan error, 1)
+	go func() {
+		for _, id := range want {
+			if err := sc.SendResponseCommand(sctx, mk(id)); err != nil {
+				sendErr <- err
+				return
+			}
+		}
+		sendErr <- nil
+	}()
+	// the application is slow to look at the stream
+	time.Sleep(300 * time.Millisecond)
+	got := []string{}
+	deadline := time.After(10 * time.Second)
+loop:
+	for len(got) < len(want) {
+		select {
+		case r, ok := <-cc.RespCmdChan():
+			if !ok {
+				break loop
+			}
+			got = append(got, r.ID)
+		case <-deadline:
+			break loop
+		}
+	}
+	if err := <-sendErr; err != nil {
+		e.Rep.Note(fmt.Sprintf("backlog %s: the server's send failed: %v", variant, err))
+	}
+	info["sent"], info["surfaced"] = want, got
+	if strings.Join(got, ",") != strings.Join(want, ",") {
+		e.Rep.Violate("impl", "c05-unmatched-lost", fmt.Sprintf("backlog (%s, stream buffer %d): %d unmatched responses were sent, the stream surfaced %d: %v", variant, buf, len(want), len(got), got), info)
+	} else {
+		e.Rep.Nontrivial(fmt.Sprintf("backlog %s %d %s", variant, buf, route))
+	}
+	return nil
+}
